@@ -1,32 +1,51 @@
-(* Proofs about Recover.v: progress of the parser (fuel = number of tokens + 1 is never exhausted), totality of lax mode,
-   warn mode = lax mode + one warning per suppressed error, and invariance of an error-free strict run. *)
+(* Proofs about Recover.v (the enlarged tag language): progress of the parser (fuel = number of tokens + 1, tokens inside
+   liquid tags included, is never exhausted), totality of lax mode, warn mode = lax mode + one warning per suppressed error,
+   and invariance of an error-free strict run. *)
 From Coq Require Import List Bool Arith Lia.
 From LiquidVerif Require Import Prelude Recover.
 Import ListNotations.
 
-Definition len (st : stream) : nat := List.length (toks st).
+Definition len (st : stream) : nat := tsize (toks st).
 
 (* ------------------------------------------------------------------------------------------------ stream facts *)
+Lemma tok_size_pos t : 1 <= tok_size t.
+Proof. destruct t as [| | | | | |[l|]]; simpl; lia. Qed.
+
+Lemma tsize_liquid l : tok_size (TLiquid (Some l)) = S (tsize l).
+Proof. reflexivity. Qed.
+
 Lemma len_adv st : len (adv st) <= len st.
 Proof. unfold len, adv; simpl. destruct (toks st); simpl; lia. Qed.
 
-Lemma len_adv_cons st t r : toks st = t :: r -> S (len (adv st)) = len st.
-Proof. unfold len, adv; simpl. intros ->. reflexivity. Qed.
+Lemma len_adv_cons st t r : toks st = t :: r -> S (len (adv st)) <= len st.
+Proof. unfold len, adv; simpl. intros ->. simpl. pose proof (tok_size_pos t). lia. Qed.
 
 Lemma cur_is_tag_cons n st : cur_is_tag n st = true -> exists n' r, toks st = TTag n' :: r.
-Proof. unfold cur_is_tag. destruct (toks st) as [|[| | |n'] r]; try discriminate. eauto. Qed.
+Proof. unfold cur_is_tag. destruct (toks st) as [|[] r]; try discriminate. eauto. Qed.
 
-Lemma cur_is_expr_cons st : cur_is_expr st = true -> exists q r, toks st = TExpr q :: r.
-Proof. unfold cur_is_expr. destruct (toks st) as [|[| |q|] r]; try discriminate. eauto. Qed.
+Lemma cur_is_expr_cons st : cur_is_expr st = true -> exists t r, toks st = t :: r.
+Proof. unfold cur_is_expr. destruct (toks st) as [|t r]; try discriminate. eauto. Qed.
 
-Lemma len_eat_to s ts : List.length (eat_to s ts) <= List.length ts.
-Proof. induction ts as [|[| | |n] r IH]; simpl; try lia. destruct (tmem n s); simpl; lia. Qed.
+Lemma len_eat_to s ts : tsize (eat_to s ts) <= tsize ts.
+Proof.
+  induction ts as [|t r IH]; [simpl; lia|]. pose proof (tok_size_pos t).
+  destruct t; cbn [eat_to]; try (cbn [tsize]; lia). destruct (tmem n s); cbn [tsize]; lia.
+Qed.
 
 Lemma len_eat_block s st : len (eat_block s st) <= len st.
 Proof. unfold len, eat_block; simpl. apply len_eat_to. Qed.
 
-Lemma len_skip_junk ts : List.length (skip_junk ts) <= List.length ts.
-Proof. induction ts as [|t r IH]; [simpl; lia|]. destruct t; cbn [skip_junk]; [destruct (smem _ _)|..]; simpl; lia. Qed.
+Lemma len_skip_junk ts : tsize (skip_junk ts) <= tsize ts.
+Proof.
+  induction ts as [|t r IH]; [simpl; lia|]. pose proof (tok_size_pos t).
+  destruct t; cbn [skip_junk]; try (cbn [tsize]; lia). destruct (smem _ _); cbn [tsize]; lia.
+Qed.
+
+Lemma len_doc_scan ts : tsize (snd (doc_scan ts)) <= tsize ts.
+Proof.
+  induction ts as [|t r IH]; [simpl; lia|]. pose proof (tok_size_pos t).
+  destruct t; cbn [doc_scan]; try (cbn [tsize]; lia). destruct n; cbn [snd tsize]; lia.
+Qed.
 
 (* ------------------------------------------------------------------------------------------------ progress *)
 (* a result is good for n: it is not fuel exhaustion and leaves at most n tokens *)
@@ -45,11 +64,15 @@ Lemma good_handled {B} n m e st l (k : log -> pres B) :
 Proof. unfold handled, handle. destruct m; simpl; auto. Qed.
 
 Lemma inner_len m eat st :
-  match inner m eat st with inl (_, st') => len st' <= len st /\ (eat = true -> S (len st') = len st) | inr st' => len st' <= len st end.
+  match inner m eat st with
+  | inl (_, st') => len st' <= len st /\ (eat = true -> S (len st') <= len st)
+  | inr (_, st') => len st' <= len st
+  end.
 Proof.
-  unfold inner. destruct (toks st) as [|[| |q|] r] eqn:E; try lia.
-  destruct (pexpr m q); destruct eat; try (split; [|intro]); try lia; try discriminate;
-    try (pose proof (len_adv st); lia); try (pose proof (len_adv_cons st _ _ E); lia).
+  unfold inner. destruct (toks st) as [|t r] eqn:E; [lia|]. pose proof (len_adv st). pose proof (len_adv_cons st _ _ E).
+  destruct t; try lia.
+  - destruct (pexpr m q); destruct eat; try (split; [|intro]); try lia; try discriminate.
+  - destruct eat; lia.
 Qed.
 
 Section Progress.
@@ -66,13 +89,14 @@ Section Progress.
     induction k as [|k IH]; intros endt st l Hk Hg; [lia|].
     simpl. destruct (cur_is_tag Nelsif st) eqn:Et; [|simpl; lia].
     destruct (cur_is_tag_cons _ _ Et) as (n' & r & Er). pose proof (len_adv_cons _ _ _ Er) as Ha.
-    pose proof (inner_len m true (adv st)) as Hi. destruct (inner m true (adv st)) as [[c st']|st'].
+    pose proof (inner_len m true (adv st)) as Hi. destruct (inner m true (adv st)) as [[c st']|[e st']].
     - destruct Hi as [Hi _]. apply (good_mono (len (adv st))); [lia|].
       apply good_pbind; [apply pb_good; lia|]. intros b st2 l2 H2.
       apply good_pbind.
       + eapply good_mono; [|apply IH]; lia.
       + intros oa st3 l3 H3. simpl. lia.
-    - apply good_handled; [lia|]. intros l'. simpl. pose proof (len_eat_block [endt; Nelsif; Nelse] st'). lia.
+    - destruct (exn_eqb e ESyntax); [|simpl; lia].
+      apply good_handled; [lia|]. intros l'. simpl. pose proof (len_eat_block [endt; Nelsif; Nelse] st'). lia.
   Qed.
 
   Lemma cases_good : forall k st l, S (len st) <= k -> len st <= g -> good (len st) (p_cases m pb k st l).
@@ -86,21 +110,45 @@ Section Progress.
       apply good_pbind; [eapply good_mono; [|apply IH]; lia|]. intros; simpl; lia. }
     destruct (cur_is_tag Nwhen st) eqn:E3; [|simpl; lia].
     destruct (cur_is_tag_cons _ _ E3) as (n' & r & Er). pose proof (len_adv_cons _ _ _ Er) as Ha.
-    pose proof (inner_len m true (adv st)) as Hi. destruct (inner m true (adv st)) as [[c st']|st']; [|simpl; lia].
-    destruct Hi as [Hi _]. apply (good_mono (len (adv st))); [lia|].
+    assert (Hgen : good (len st) (match inner m true (adv st) with
+                                  | inr (e, st') => PErr e st' l
+                                  | inl (r0, st') => pbind (pb endwhen st' l) (fun b st2 l2 =>
+                                      pbind (p_cases m pb k st2 l2) (fun c st3 l3 => POk (CWhen r0 b c) st3 l3)) end)).
+    { pose proof (inner_len m true (adv st)) as Hi. destruct (inner m true (adv st)) as [[c st']|[e st']]; [|simpl; lia].
+      destruct Hi as [Hi _]. apply (good_mono (len (adv st))); [lia|].
+      apply good_pbind; [apply pb_good; lia|]. intros b st2 l2 H2.
+      apply good_pbind; [eapply good_mono; [|apply IH]; lia|]. intros; simpl; lia. }
+    change (tl (toks st)) with (toks (adv st)). destruct (toks (adv st)) as [|t2 r2] eqn:E4; try exact Hgen. destruct t2; try exact Hgen. destruct q; try exact Hgen.
+    pose proof (len_adv_cons _ _ _ E4) as Ha2. cbv zeta.
+    apply good_handled; [lia|]. intros l'. apply (good_mono (len (adv (adv st)))); [lia|].
     apply good_pbind; [apply pb_good; lia|]. intros b st2 l2 H2.
     apply good_pbind; [eapply good_mono; [|apply IH]; lia|]. intros; simpl; lia.
   Qed.
 
-  (* every parse method, entered on a tag / output / other token, leaves at most the tokens it was given *)
+  (* the shapes shared by several tags *)
+  Lemma inline_good mk st l t r : toks st = t :: r -> good (len st) (p_inline m mk st l).
+  Proof.
+    intros Er. pose proof (len_adv_cons _ _ _ Er). pose proof (inner_len m false (adv st)) as Hi. unfold p_inline.
+    destruct (inner m false (adv st)) as [[c st2]|[e st2]]; simpl; [destruct Hi|]; lia.
+  Qed.
+
+  Lemma block1_good mk endt st l t r : toks st = t :: r -> len st <= g -> good (len st) (p_block1 m pb mk endt st l).
+  Proof.
+    intros Er Hg. pose proof (len_adv_cons _ _ _ Er) as Ha. pose proof (inner_len m true (adv st)) as Hi. unfold p_block1.
+    destruct (inner m true (adv st)) as [[c st2]|[e st2]]; [|simpl; lia]. destruct Hi as [Hi _].
+    apply (good_mono (len (adv st))); [lia|].
+    apply good_pbind; [apply pb_good; lia|]. intros body st3 l3 H3. destruct (cur_is_tag endt st3); simpl; lia.
+  Qed.
+
+  (* every parse method, entered on a token, leaves at most the tokens it was given *)
   Lemma parse_of_good n st l t r : toks st = t :: r -> len st <= g -> good (len st) (parse_of m pb g n st l).
   Proof.
     intros Er Hg. pose proof (len_adv_cons _ _ _ Er) as Ha.
     pose proof (inner_len m true (adv st)) as Hi. pose proof (inner_len m false (adv st)) as Hi'.
     assert (Hill : good (len st) (p_illegal st l)).
     { unfold p_illegal. simpl. destruct (cur_is_expr (adv st)); lia. }
-    destruct n; simpl; try exact Hill.
-    - (* if *) unfold p_if. destruct (inner m true (adv st)) as [[c st2]|st2]; [|simpl; lia]. destruct Hi as [Hi _].
+    assert (Hif : forall neg, good (len st) (p_if m pb g neg st l)).
+    { intros neg. unfold p_if. destruct (inner m true (adv st)) as [[c st2]|[e st2]]; [|simpl; lia]. destruct Hi as [Hi _].
       apply (good_mono (len (adv st))); [lia|].
       apply good_pbind; [apply pb_good; lia|]. intros cns st3 l3 H3.
       apply good_pbind; [eapply good_mono; [|apply elsifs_good]; lia|]. intros [a|] st4 l4 H4; [|simpl; lia].
@@ -108,17 +156,11 @@ Section Progress.
       + destruct (cur_is_tag Nelse st4) eqn:E; [|simpl; lia].
         destruct (cur_is_tag_cons _ _ E) as (n' & r' & Er'). pose proof (len_adv_cons _ _ _ Er') as Ha'.
         pose proof (len_adv (adv st4)). destruct (cur_is_expr (adv st4)); apply pb_good; lia.
-      + intros d st5 l5 H5. pose proof (len_eat_block [Nendif] st5). destruct (cur_is_tag Nendif (eat_block [Nendif] st5)); simpl; lia.
-    - (* unless *) unfold p_if. destruct (inner m true (adv st)) as [[c st2]|st2]; [|simpl; lia]. destruct Hi as [Hi _].
-      apply (good_mono (len (adv st))); [lia|].
-      apply good_pbind; [apply pb_good; lia|]. intros cns st3 l3 H3.
-      apply good_pbind; [eapply good_mono; [|apply elsifs_good]; lia|]. intros [a|] st4 l4 H4; [|simpl; lia].
-      apply good_pbind.
-      + destruct (cur_is_tag Nelse st4) eqn:E; [|simpl; lia].
-        destruct (cur_is_tag_cons _ _ E) as (n' & r' & Er'). pose proof (len_adv_cons _ _ _ Er') as Ha'.
-        pose proof (len_adv (adv st4)). destruct (cur_is_expr (adv st4)); apply pb_good; lia.
-      + intros d st5 l5 H5. pose proof (len_eat_block [Nendunless] st5). destruct (cur_is_tag Nendunless (eat_block [Nendunless] st5)); simpl; lia.
-    - (* for *) unfold p_for. destruct (inner m true (adv st)) as [[c st2]|st2]; [|simpl; lia]. destruct Hi as [Hi _].
+      + intros d st5 l5 H5. cbv zeta. pose proof (len_eat_block [if neg then Nendunless else Nendif] st5).
+        destruct (cur_is_tag _ (eat_block _ st5)); simpl; lia. }
+    destruct n; cbn [parse_of]; try exact Hill; try apply Hif; try (eapply inline_good; eassumption);
+      try (eapply block1_good; eassumption).
+    - (* for *) unfold p_for. destruct (inner m true (adv st)) as [[c st2]|[e st2]]; [|simpl; lia]. destruct Hi as [Hi _].
       apply (good_mono (len (adv st))); [lia|].
       apply good_pbind; [apply pb_good; lia|]. intros body st3 l3 H3.
       apply good_pbind.
@@ -127,24 +169,51 @@ Section Progress.
       + intros d st4 l4 H4. destruct (cur_is_tag Nendfor st4); simpl; lia.
     - (* break *) unfold p_leaf. simpl. lia.
     - (* continue *) unfold p_leaf. simpl. lia.
-    - (* case *) unfold p_case. destruct (inner m true (adv st)) as [[c st2]|st2]; [|simpl; lia]. destruct Hi as [Hi _].
+    - (* case *) unfold p_case. destruct (inner m true (adv st)) as [[c st2]|[e st2]]; [|simpl; lia]. destruct Hi as [Hi _].
       pose proof (len_skip_junk (toks st2)) as Hj. fold (len st2) in Hj.
       apply (good_mono (len (adv st))); [lia|].
       apply good_pbind.
       + eapply good_mono; [|apply cases_good]; unfold len in *; simpl in *; lia.
       + intros; simpl; lia.
-    - (* capture *) unfold p_capture. destruct (inner m true (adv st)) as [[c st2]|st2]; [|simpl; lia]. destruct Hi as [Hi _].
-      apply (good_mono (len (adv st))); [lia|].
-      apply good_pbind; [apply pb_good; lia|]. intros body st3 l3 H3. destruct (cur_is_tag Nendcapture st3); simpl; lia.
-    - (* assign *) unfold p_assign. destruct (inner m false (adv st)) as [[c st2]|st2]; simpl; [destruct Hi'|]; lia.
     - (* echo *) unfold p_echo. destruct (toks (adv st)); [simpl; lia|].
-      destruct (inner m false (adv st)) as [[c st2]|st2]; simpl; [destruct Hi'|]; lia.
+      destruct (inner m false (adv st)) as [[c st2]|[e st2]]; simpl; [destruct Hi'|]; lia.
+    - (* liquid *) unfold p_liquid. destruct (toks (adv st)) as [|t2 r2] eqn:E2; [simpl; lia|].
+      destruct t2 as [| |q| | | |oi]; try (simpl; lia). destruct oi as [il|]; [|simpl; lia].
+      assert (Hin : S (tsize il) <= len (adv st)) by (unfold len; rewrite E2; cbn [tsize]; rewrite tsize_liquid; lia).
+      pose proof (Hpb [] {| toks := il; depth := depth st |} l ltac:(unfold len; simpl; lia)) as Hb.
+      destruct (pb [] {| toks := il; depth := depth st |} l); simpl in *; lia || contradiction.
+    - (* comment *) unfold p_comment. cbv zeta. pose proof (len_eat_block [Nendcomment] (adv st)).
+      destruct (cur_is_tag _ (eat_block _ (adv st))); simpl; lia.
+    - (* doc *) unfold p_doc. cbv zeta. destruct (cur_is_expr (adv st)); [simpl; lia|].
+      pose proof (len_doc_scan (toks (adv st))) as Hd. destruct (doc_scan (toks (adv st))) as [ok ts]. simpl in Hd.
+      destruct ok; simpl; unfold len, adv in Ha |- *; simpl in Ha |- *; lia.
+    - (* inline comment *) unfold p_hash. destruct (toks (adv st)) as [|t2 r2]; [simpl; lia|].
+      destruct t2; try (simpl; lia). destruct (pexpr m q); simpl; lia.
+    - (* ifchanged *) unfold p_ifchanged. apply (good_mono (len (adv st))); [lia|].
+      apply good_pbind; [apply pb_good; lia|]. intros body st3 l3 H3. destruct (cur_is_tag Nendifchanged st3); simpl; lia.
+    - (* block *) unfold p_blocktag. destruct (inner m true (adv st)) as [[c st2]|[e st2]]; [|simpl; lia]. destruct Hi as [Hi _].
+      apply (good_mono (len (adv st))); [lia|].
+      apply good_pbind; [apply pb_good; lia|]. intros body st3 l3 H3.
+      destruct (cur_is_tag Nendblock st3); [|simpl; lia]. destruct (cur_is_expr (adv st3)); [|simpl; lia].
+      pose proof (inner_len m false (adv st3)) as Hj. pose proof (len_adv st3).
+      destruct (inner m false (adv st3)) as [[c' st4]|[e st4]]; simpl; [destruct Hj|]; lia.
+    - (* translate *) unfold p_translate. cbv zeta. pose proof (inner_len m true (adv st)) as Hk.
+      assert (Hargs : match (if cur_is_expr (adv st) then inner m true (adv st) else inl (RVal [] 0, adv st)) with
+                      | inl (_, s2) | inr (_, s2) => len s2 <= len (adv st) end).
+      { destruct (cur_is_expr (adv st)); [|lia]. destruct (inner m true (adv st)) as [[c s2]|[e s2]]; [destruct Hk|]; lia. }
+      destruct (if cur_is_expr (adv st) then inner m true (adv st) else inl (RVal [] 0, adv st)) as [[c st2]|[e st2]]; [|simpl; lia].
+      apply (good_mono (len (adv st))); [lia|].
+      apply good_pbind; [apply pb_good; lia|]. intros sing st3 l3 H3. destruct (valid_msg sing); [|simpl; lia].
+      apply good_pbind.
+      + destruct (cur_is_tag Nplural st3) eqn:E; [|simpl; lia].
+        destruct (cur_is_tag_cons _ _ E) as (n' & r' & Er'). pose proof (len_adv_cons _ _ _ Er') as Ha'. apply pb_good; lia.
+      + intros plur st4 l4 H4. destruct (valid_msg plur); [|simpl; lia]. destruct (cur_is_tag Nendtranslate st4); simpl; lia.
   Qed.
 
   Lemma get_node_good n parse endt st l : good n (parse st l) -> good n (get_node m parse endt st l).
   Proof.
     unfold get_node. destruct (parse st l) as [a st' l'|e st' l'|]; simpl; auto. intros H.
-    apply good_handled; auto. intros l2. simpl. destruct endt; auto. pose proof (len_eat_block [t] st'). lia.
+    destruct (is_liquid e); [|exact H]. apply good_handled; auto. intros l2. simpl. destruct endt; auto. pose proof (len_eat_block [t] st'). lia.
   Qed.
 
   Lemma pnode_good st l t r : toks st = t :: r -> len st <= g -> good (len st) (pnode m pb g st l).
@@ -154,8 +223,9 @@ Section Progress.
     { apply get_node_good. unfold p_content. destruct (toks st) as [|[]]; simpl; lia. }
     destruct t; try exact Hc.
     - apply get_node_good. unfold p_output. pose proof (inner_len m false (adv st)) as Hi.
-      destruct (inner m false (adv st)) as [[c st2]|st2]; simpl; [destruct Hi|]; lia.
+      destruct (inner m false (adv st)) as [[c st2]|[e st2]]; simpl; [destruct Hi|]; lia.
     - apply get_node_good. eapply parse_of_good; eauto.
+    - apply get_node_good. unfold p_leaf. simpl. lia.
   Qed.
 End Progress.
 
@@ -173,45 +243,53 @@ Proof.
   induction f as [|f IH]; intros stops st l Hf; [lia|].
   simpl. destruct (toks st) as [|t r] eqn:Er; [simpl; lia|].
   destruct (is_stop stops t); [simpl; lia|].
-  assert (Hlen : len st = S (List.length r)) by (unfold len; rewrite Er; reflexivity).
+  assert (Hlen : 1 <= len st) by (unfold len; rewrite Er; cbn [tsize]; pose proof (tok_size_pos t); lia).
   assert (Hpb : forall stops' st' l', S (len st') <= f -> good (len st') (pblock_of lim (ploop m lim f) stops' st' l')).
   { intros. apply pblock_of_good. apply (IH stops' {| toks := toks st'; depth := S (depth st') |} l'). exact H. }
   pose proof (pnode_good m _ f Hpb st l t r Er ltac:(lia)) as Hn.
+  assert (Hadv : forall st', len st' <= len st -> S (len (adv st')) <= f /\ len (adv st') <= len st).
+  { intros st' H'. pose proof (len_adv st'). destruct (toks st') as [|t' r'] eqn:E'.
+    - unfold len, adv in *. rewrite E' in *. simpl in *. lia.
+    - pose proof (len_adv_cons _ _ _ E'). lia. }
   destruct (pnode m (pblock_of lim (ploop m lim f)) f st l) as [n st' l'|e st' l'|]; simpl in Hn; [| |contradiction].
-  - apply good_pbind.
-    + pose proof (len_adv st'). eapply good_mono; [|apply IH]; [lia|].
-      unfold len, adv in *; simpl in *. destruct (toks st'); simpl in *; lia.
+  - destruct (Hadv st' Hn). apply good_pbind.
+    + eapply good_mono; [|apply IH]; lia.
     + intros; simpl; lia.
-  - apply good_handled; [lia|]. intros l2.
-    pose proof (len_adv st'). eapply good_mono; [|apply IH]; [lia|].
-    unfold len, adv in *; simpl in *. destruct (toks st'); simpl in *; lia.
+  - destruct (Hadv st' Hn). destruct (is_liquid e); [|simpl; lia].
+    apply good_handled; [lia|]. intros l2. eapply good_mono; [|apply IH]; lia.
 Qed.
 
-Theorem parse_progress m lim f ts : S (List.length ts) <= f -> parse_fuel m lim f ts <> OutOfFuel.
+Theorem parse_progress m lim f ts : S (tsize ts) <= f -> parse_fuel m lim f ts <> OutOfFuel.
 Proof.
   intros Hf. unfold parse_fuel.
   pose proof (ploop_good m lim f [] {| toks := ts; depth := 0 |} log0 Hf) as H.
   destruct (ploop m lim f [] {| toks := ts; depth := 0 |} log0); simpl in H; try discriminate. contradiction.
 Qed.
 
+
 (* ------------------------------------------------------------------------------------------------ lax and warn never raise *)
-Lemma get_node_noerr m parse endt st l : m <> Strict -> forall e st' l', get_node m parse endt st l <> PErr e st' l'.
+Lemma get_node_noerr m parse endt st l : m <> Strict ->
+  forall e st' l', get_node m parse endt st l = PErr e st' l' -> is_liquid e = false.
 Proof.
-  intros Hm e st' l'. unfold get_node. destruct (parse st l); try discriminate.
+  intros Hm e st' l'. unfold get_node. destruct (parse st l) as [a s1 l1|e1 s1 l1|]; try discriminate.
+  destruct (is_liquid e1) eqn:El; [|intros H; inversion H; subst; exact El].
   unfold handled, handle. destruct m; try contradiction; discriminate.
 Qed.
 
-Lemma pnode_noerr m pb g st l : m <> Strict -> forall e st' l', pnode m pb g st l <> PErr e st' l'.
+Lemma pnode_noerr m pb g st l : m <> Strict -> forall e st' l', pnode m pb g st l = PErr e st' l' -> is_liquid e = false.
 Proof. intros Hm. unfold pnode. destruct (toks st) as [|[]]; apply get_node_noerr; auto. Qed.
 
-Lemma ploop_noerr m lim : m <> Strict -> forall f stops st l e st' l', ploop m lim f stops st l <> PErr e st' l'.
+(* in warn and lax mode the only exceptions that leave the parser are non-Liquid ones raised by an expression parser *)
+Lemma ploop_noerr m lim : m <> Strict ->
+  forall f stops st l e st' l', ploop m lim f stops st l = PErr e st' l' -> is_liquid e = false.
 Proof.
   intros Hm. induction f as [|f IH]; intros stops st l e st' l'; [discriminate|].
   simpl. destruct (toks st) as [|t r]; [discriminate|]. destruct (is_stop stops t); [discriminate|].
   pose proof (pnode_noerr m (pblock_of lim (ploop m lim f)) f st l Hm) as Hn.
   destruct (pnode m (pblock_of lim (ploop m lim f)) f st l) as [n s1 l1|e1 s1 l1|]; [| |discriminate].
-  - simpl. pose proof (IH stops (adv s1) l1) as H. destruct (ploop m lim f stops (adv s1) l1); simpl; try discriminate. apply H.
-  - exfalso. eapply Hn. reflexivity.
+  - simpl. pose proof (IH stops (adv s1) l1) as H. destruct (ploop m lim f stops (adv s1) l1); simpl; try discriminate.
+    intros E; inversion E; subst. eapply H. reflexivity.
+  - rewrite (Hn _ _ _ eq_refl). intros E; inversion E; subst. eapply Hn. reflexivity.
 Qed.
 
 (* ------------------------------------------------------------------------------------------------ one simulation, two uses *)
@@ -256,7 +334,16 @@ Section Sim.
 
   Ltac gerr := match goal with H : lr ?la ?lb |- G (PErr _ _ ?la) _ => apply G_err with (l' := lb); [exact H|] end.
   Ltac inner_cases eat st c st2 Hi :=
-    pose proof (H_inner eat st) as Hi; destruct (inner m1 eat st) as [[c st2]|st2]; [rewrite Hi|].
+    pose proof (H_inner eat st) as Hi; destruct (inner m1 eat st) as [[c st2]|[e0 st2]]; [rewrite Hi|].
+
+  (* the expression parser alone, read off H_inner on a one-token stream *)
+  Lemma H_pexpr q : match pexpr m1 q with inr r => pexpr m2 q = inr r | inl e => flag = false -> pexpr m2 q = inl e end.
+  Proof.
+    pose proof (H_inner false {| toks := [TExpr q]; depth := 0 |}) as H. unfold inner in H. simpl in H.
+    destruct (pexpr m1 q) as [e|r]; destruct (pexpr m2 q) as [e'|r']; try congruence.
+    - intros F. specialize (H F). congruence.
+    - intros F. specialize (H F). congruence.
+  Qed.
 
   Lemma sim_elsifs : forall g endt st l l', lr l l' -> G (p_elsifs m1 pb1 g endt st l) (p_elsifs m2 pb2 g endt st l').
   Proof.
@@ -267,8 +354,8 @@ Section Sim.
     - apply G_pbind; [apply Hpb; auto|]. intros b s2 l2 l2' H2.
       apply G_pbind; [apply IH; auto|]. intros oa s3 l3 l3' H3. apply G_ok; auto.
     - case_eq flag; intros F.
-      + apply G_strict_handled; auto.
-      + rewrite (Hi F). apply H_handled; auto. intros. apply G_ok; auto.
+      + destruct (exn_eqb e0 ESyntax); [apply G_strict_handled; auto|]. unfold G. rewrite F. exact I.
+      + rewrite (Hi F). destruct (exn_eqb e0 ESyntax); [|gerr; auto]. apply H_handled; auto. intros. apply G_ok; auto.
   Qed.
 
   Lemma sim_cases : forall g st l l', lr l l' -> G (p_cases m1 pb1 g st l) (p_cases m2 pb2 g st l').
@@ -280,10 +367,22 @@ Section Sim.
     { apply G_pbind; [apply Hpb; auto|]. intros b s2 l2 l2' H2.
       apply G_pbind; [apply IH; auto|]. intros c s3 l3 l3' H3. apply G_ok; auto. }
     destruct (cur_is_tag Nwhen st); [|gerr; auto].
-    inner_cases true (adv st) c st2 Hi.
-    - apply G_pbind; [apply Hpb; auto|]. intros b s2 l2 l2' H2.
-      apply G_pbind; [apply IH; auto|]. intros c' s3 l3 l3' H3. apply G_ok; auto.
-    - gerr. intros F. rewrite (Hi F). reflexivity.
+    assert (Hgen : G (match inner m1 true (adv st) with
+                      | inr (e, st') => PErr e st' l
+                      | inl (r0, st') => pbind (pb1 endwhen st' l) (fun b st2 l2 =>
+                          pbind (p_cases m1 pb1 g st2 l2) (fun c st3 l3 => POk (CWhen r0 b c) st3 l3)) end)
+                     (match inner m2 true (adv st) with
+                      | inr (e, st') => PErr e st' l'
+                      | inl (r0, st') => pbind (pb2 endwhen st' l') (fun b st2 l2 =>
+                          pbind (p_cases m2 pb2 g st2 l2) (fun c st3 l3 => POk (CWhen r0 b c) st3 l3)) end)).
+    { inner_cases true (adv st) c st2 Hi.
+      - apply G_pbind; [apply Hpb; auto|]. intros b s2 l2 l2' H2.
+        apply G_pbind; [apply IH; auto|]. intros c' s3 l3 l3' H3. apply G_ok; auto.
+      - gerr. intros F. rewrite (Hi F). reflexivity. }
+    change (tl (toks st)) with (toks (adv st)). destruct (toks (adv st)) as [|t2 r2]; try exact Hgen. destruct t2; try exact Hgen. destruct q; try exact Hgen.
+    cbv zeta. apply H_handled; auto. intros l2 l2' H2.
+    apply G_pbind; [apply Hpb; auto|]. intros b s2 l3 l3' H3.
+    apply G_pbind; [apply IH; auto|]. intros c' s3 l4 l4' H4. apply G_ok; auto.
   Qed.
 
   Lemma sim_if g neg st l l' : lr l l' -> G (p_if m1 pb1 g neg st l) (p_if m2 pb2 g neg st l').
@@ -307,12 +406,79 @@ Section Sim.
     - gerr. intros F. rewrite (Hi F). reflexivity.
   Qed.
 
-  Lemma sim_capture st l l' : lr l l' -> G (p_capture m1 pb1 st l) (p_capture m2 pb2 st l').
+  Lemma sim_inline mk st l l' : lr l l' -> G (p_inline m1 mk st l) (p_inline m2 mk st l').
   Proof.
-    intros Hl. unfold p_capture. inner_cases true (adv st) c st2 Hi.
+    intros Hl. unfold p_inline. inner_cases false (adv st) c st2 Hi; [apply G_ok; auto|].
+    gerr. intros F. rewrite (Hi F). reflexivity.
+  Qed.
+
+  Lemma sim_block1 mk endt st l l' : lr l l' -> G (p_block1 m1 pb1 mk endt st l) (p_block1 m2 pb2 mk endt st l').
+  Proof.
+    intros Hl. unfold p_block1. inner_cases true (adv st) c st2 Hi.
     - apply G_pbind; [apply Hpb; auto|]. intros body s3 l3 l3' H3.
-      destruct (cur_is_tag Nendcapture s3); [apply G_ok; auto|gerr; auto].
+      destruct (cur_is_tag endt s3); [apply G_ok; auto|gerr; auto].
     - gerr. intros F. rewrite (Hi F). reflexivity.
+  Qed.
+
+  Lemma sim_blocktag st l l' : lr l l' -> G (p_blocktag m1 pb1 st l) (p_blocktag m2 pb2 st l').
+  Proof.
+    intros Hl. unfold p_blocktag. inner_cases true (adv st) c st2 Hi.
+    - apply G_pbind; [apply Hpb; auto|]. intros body s3 l3 l3' H3.
+      destruct (cur_is_tag Nendblock s3); [|gerr; auto]. destruct (cur_is_expr (adv s3)); [|apply G_ok; auto].
+      inner_cases false (adv s3) c' st4 Hj; [apply G_ok; auto|]. gerr. intros F. rewrite (Hj F). reflexivity.
+    - gerr. intros F. rewrite (Hi F). reflexivity.
+  Qed.
+
+  Lemma sim_ifchanged st l l' : lr l l' -> G (p_ifchanged pb1 st l) (p_ifchanged pb2 st l').
+  Proof.
+    intros Hl. unfold p_ifchanged. apply G_pbind; [apply Hpb; auto|]. intros body s3 l3 l3' H3.
+    destruct (cur_is_tag Nendifchanged s3); [apply G_ok; auto|gerr; auto].
+  Qed.
+
+  Lemma sim_translate st l l' : lr l l' -> G (p_translate m1 pb1 st l) (p_translate m2 pb2 st l').
+  Proof.
+    intros Hl. unfold p_translate. cbv zeta.
+    assert (Hrest : forall st2, G
+      (pbind (pb1 [Nendtranslate; Nplural] st2 l) (fun sing st3 l3 =>
+         if valid_msg sing then
+           pbind (if cur_is_tag Nplural st3 then pb1 [Nendtranslate] (adv st3) l3 else POk BNil st3 l3) (fun plur st4 l4 =>
+             if valid_msg plur then if cur_is_tag Nendtranslate st4 then POk (NTranslate sing plur) st4 l4 else PErr ESyntax st4 l4
+             else PErr ESyntax st4 l4)
+         else PErr ESyntax st3 l3))
+      (pbind (pb2 [Nendtranslate; Nplural] st2 l') (fun sing st3 l3 =>
+         if valid_msg sing then
+           pbind (if cur_is_tag Nplural st3 then pb2 [Nendtranslate] (adv st3) l3 else POk BNil st3 l3) (fun plur st4 l4 =>
+             if valid_msg plur then if cur_is_tag Nendtranslate st4 then POk (NTranslate sing plur) st4 l4 else PErr ESyntax st4 l4
+             else PErr ESyntax st4 l4)
+         else PErr ESyntax st3 l3))).
+    { intros st2. apply G_pbind; [apply Hpb; auto|]. intros sing s3 l3 l3' H3. destruct (valid_msg sing); [|gerr; auto].
+      apply G_pbind.
+      - destruct (cur_is_tag Nplural s3); [apply Hpb; auto|apply G_ok; auto].
+      - intros plur s4 l4 l4' H4. destruct (valid_msg plur); [|gerr; auto].
+        destruct (cur_is_tag Nendtranslate s4); [apply G_ok; auto|gerr; auto]. }
+    destruct (cur_is_expr (adv st)); [|apply Hrest].
+    inner_cases true (adv st) c st2 Hi; [apply Hrest|]. gerr. intros F. rewrite (Hi F). reflexivity.
+  Qed.
+
+  Lemma sim_liquid st l l' : lr l l' -> G (p_liquid pb1 st l) (p_liquid pb2 st l').
+  Proof.
+    intros Hl. unfold p_liquid. destruct (toks (adv st)) as [|t2 r2]; [apply G_ok; auto|].
+    destruct t2 as [| |q| | | |oi]; try (apply G_ok; auto); [gerr; auto|]. destruct oi as [il|]; [|gerr; auto].
+    pose proof (Hpb [] {| toks := il; depth := depth st |} l l' Hl) as H.
+    destruct (pb1 [] {| toks := il; depth := depth st |} l) as [b s1 l1|e s1 l1|]; simpl in H.
+    - destruct H as (l1' & -> & H1). apply G_ok; auto.
+    - case_eq flag; intros F; rewrite F in H.
+      + unfold G. rewrite F. exact I.
+      + destruct H as (l1' & -> & H1). gerr; auto.
+    - case_eq flag; intros F; rewrite F in H; unfold G; rewrite F; auto. rewrite H. reflexivity.
+  Qed.
+
+  Lemma sim_hash st l l' : lr l l' -> G (p_hash m1 st l) (p_hash m2 st l').
+  Proof.
+    intros Hl. unfold p_hash. destruct (toks (adv st)) as [|t2 r2]; [apply G_ok; auto|].
+    destruct t2; try (apply G_ok; auto). pose proof (H_pexpr q) as Hq.
+    destruct (pexpr m1 q) as [e|r]; [|rewrite Hq; apply G_ok; auto].
+    gerr. intros F. rewrite (Hq F). reflexivity.
   Qed.
 
   Lemma sim_case g st l l' : lr l l' -> G (p_case m1 pb1 g st l) (p_case m2 pb2 g st l').
@@ -326,19 +492,21 @@ Section Sim.
   Proof.
     intros Hl.
     assert (Hill : G (p_illegal st l) (p_illegal st l')) by (unfold p_illegal; gerr; auto).
-    destruct n; simpl; try exact Hill.
-    - apply sim_if; auto.
-    - apply sim_if; auto.
+    destruct n; cbn [parse_of]; try exact Hill; try (apply sim_if; auto); try (apply sim_inline; auto); try (apply sim_block1; auto).
     - apply sim_for; auto.
     - unfold p_leaf. apply G_ok; auto.
     - unfold p_leaf. apply G_ok; auto.
     - apply sim_case; auto.
-    - apply sim_capture; auto.
-    - unfold p_assign. inner_cases false (adv st) c st2 Hi; [apply G_ok; auto|].
-      gerr. intros F. rewrite (Hi F). reflexivity.
     - unfold p_echo. destruct (toks (adv st)); [apply G_ok; auto|].
-      inner_cases false (adv st) c st2 Hi; [apply G_ok; auto|].
-      gerr. intros F. rewrite (Hi F). reflexivity.
+      inner_cases false (adv st) c st2 Hi; [apply G_ok; auto|]. gerr. intros F. rewrite (Hi F). reflexivity.
+    - apply sim_liquid; auto.
+    - unfold p_comment. cbv zeta. destruct (cur_is_tag _ (eat_block _ (adv st))); [apply G_ok; auto|gerr; auto].
+    - unfold p_doc. cbv zeta. destruct (cur_is_expr (adv st)); [gerr; auto|].
+      destruct (doc_scan (toks (adv st))) as [ok ts]. destruct ok; [apply G_ok; auto|gerr; auto].
+    - apply sim_hash; auto.
+    - apply sim_ifchanged; auto.
+    - apply sim_blocktag; auto.
+    - apply sim_translate; auto.
   Qed.
 
   Lemma sim_get_node parse1 parse2 endt st l l' :
@@ -347,8 +515,9 @@ Section Sim.
     intros Hl H. unfold get_node. destruct (parse1 st l) as [a s1 l1|e s1 l1|]; simpl in H.
     - destruct H as (l1' & -> & H1). apply G_ok; auto.
     - case_eq flag; intros F.
-      + apply G_strict_handled; auto.
-      + rewrite F in H. destruct H as (l1' & -> & H1). apply H_handled; auto. intros. apply G_ok; auto.
+      + destruct (is_liquid e); [apply G_strict_handled; auto|]. unfold G. rewrite F. exact I.
+      + rewrite F in H. destruct H as (l1' & -> & H1). destruct (is_liquid e); [|gerr; auto].
+        apply H_handled; auto. intros. apply G_ok; auto.
     - simpl. case_eq flag; intros F; rewrite F in H; auto. rewrite H. reflexivity.
   Qed.
 
@@ -361,6 +530,7 @@ Section Sim.
     - apply sim_get_node; auto. unfold p_output. inner_cases false (adv st) c st2 Hi; [apply G_ok; auto|].
       gerr. intros F. rewrite (Hi F). reflexivity.
     - apply sim_get_node; auto. apply sim_parse_of; auto.
+    - apply sim_get_node; auto. unfold p_leaf. apply G_ok; auto.
   Qed.
 End Sim.
 
@@ -391,8 +561,9 @@ Section SimLoop.
     destruct (pnode m1 (pblock_of lim (ploop m1 lim f)) f st l) as [n s1 l1|e s1 l1|]; simpl in Hn.
     - destruct Hn as (l1' & -> & H1). apply G_pbind; [apply IH; auto|]. intros. apply G_ok; auto.
     - destruct (Sumbool.sumbool_of_bool flag) as [F|F].
-      + apply G_strict_handled with (m1 := m1); auto.
-      + rewrite F in Hn. destruct Hn as (l1' & -> & H1). apply H_handled; auto.
+      + destruct (is_liquid e); [apply G_strict_handled with (m1 := m1); auto|]. unfold G. rewrite F. exact I.
+      + rewrite F in Hn. destruct Hn as (l1' & -> & H1). destruct (is_liquid e); [|apply G_err with (l' := l1'); auto].
+        apply H_handled; auto.
     - destruct (Sumbool.sumbool_of_bool flag) as [F|F]; rewrite F in Hn; [simpl; rewrite F; exact I|]. rewrite Hn. simpl. rewrite F. reflexivity.
   Qed.
 End SimLoop.
@@ -401,7 +572,7 @@ End SimLoop.
 Definition lrel (lw ll : log) : Prop := suppressed lw = suppressed ll /\ emitted lw = suppressed lw /\ emitted ll = [].
 
 Lemma inner_warn_lax eat st : inner Warn eat st = inner Lax eat st.
-Proof. unfold inner. destruct (toks st) as [|[| |[]|]]; reflexivity. Qed.
+Proof. unfold inner. destruct (toks st) as [|[| |[]| | | |]]; reflexivity. Qed.
 
 Lemma handled_warn_lax B e st l l' (k k' : log -> pres B) :
   lrel l l' -> (forall l2 l2', lrel l2 l2' -> G false lrel (k l2) (k' l2')) -> G false lrel (handled Warn e st l k) (handled Lax e st l' k').
@@ -423,7 +594,7 @@ Definition lfix (l0 l0' l l' : log) : Prop := l = l0 /\ l' = l0'.
 
 Lemma inner_strict m eat st x : inner Strict eat st = inl x -> inner m eat st = inl x.
 Proof.
-  unfold inner. destruct (toks st) as [|[| |q|]]; try discriminate.
+  unfold inner. destruct (toks st) as [|[| |q| | | |]]; try discriminate.
   destruct q; simpl; try discriminate; destruct m; auto.
 Qed.
 
@@ -437,15 +608,17 @@ Proof.
   - split; reflexivity.
 Qed.
 
+
 (* ------------------------------------------------------------------------------------------------ parsing: the three statements *)
 Lemma ploop_top_ok m lim ts : m <> Strict ->
-  exists b st l, ploop m lim (S (List.length ts)) [] {| toks := ts; depth := 0 |} log0 = POk b st l.
+  (exists b st l, ploop m lim (S (tsize ts)) [] {| toks := ts; depth := 0 |} log0 = POk b st l) \/
+  (exists e st l, ploop m lim (S (tsize ts)) [] {| toks := ts; depth := 0 |} log0 = PErr e st l /\ is_liquid e = false).
 Proof.
-  intros Hm. pose proof (ploop_good m lim (S (List.length ts)) [] {| toks := ts; depth := 0 |} log0 ltac:(unfold len; simpl; lia)) as Hg.
-  pose proof (ploop_noerr m lim Hm (S (List.length ts)) [] {| toks := ts; depth := 0 |} log0) as He.
-  destruct (ploop m lim (S (List.length ts)) [] {| toks := ts; depth := 0 |} log0) as [b st l|e st l|]; simpl in Hg.
-  - eauto.
-  - exfalso. eapply He. reflexivity.
+  intros Hm. pose proof (ploop_good m lim (S (tsize ts)) [] {| toks := ts; depth := 0 |} log0 ltac:(unfold len; simpl; lia)) as Hg.
+  pose proof (ploop_noerr m lim Hm (S (tsize ts)) [] {| toks := ts; depth := 0 |} log0) as He.
+  destruct (ploop m lim (S (tsize ts)) [] {| toks := ts; depth := 0 |} log0) as [b st l|e st l|]; simpl in Hg.
+  - left. eauto.
+  - right. exists e, st, l. split; [reflexivity|]. eapply He. reflexivity.
   - contradiction.
 Qed.
 
@@ -455,25 +628,31 @@ Proof. unfold lrel, log0; simpl; auto. Qed.
 Lemma lrel_warn lw ll : lrel lw ll -> lw = {| emitted := suppressed ll; suppressed := suppressed ll |}.
 Proof. destruct lw as [e s]. unfold lrel; simpl. intros (-> & -> & _). reflexivity. Qed.
 
+(* warn mode against lax mode: the same tree and one warning per suppressed error -- or the same non-Liquid exception, raised by
+   an expression parser, leaves both (those are outside this property, see C02) *)
 Theorem warn_parse_is_lax_parse lim ts :
-  exists b l, parse Lax lim ts = Ok (b, l) /\ emitted l = [] /\
-              parse Warn lim ts = Ok (b, {| emitted := suppressed l; suppressed := suppressed l |}).
+  (exists b l, parse Lax lim ts = Ok (b, l) /\ emitted l = [] /\
+               parse Warn lim ts = Ok (b, {| emitted := suppressed l; suppressed := suppressed l |})) \/
+  (exists e, parse Lax lim ts = Err e /\ parse Warn lim ts = Err e /\ is_liquid e = false).
 Proof.
   unfold parse, parse_fuel.
-  destruct (ploop_top_ok Warn lim ts ltac:(discriminate)) as (b & st & lw & Hw).
-  pose proof (ploop_warn_lax lim (S (List.length ts)) [] {| toks := ts; depth := 0 |} log0 log0 lrel0) as H.
-  remember (S (List.length ts)) as f eqn:Ef. clear Ef.
-  rewrite Hw in H. unfold G in H. destruct H as (ll & Hl & Hr). rewrite Hw, Hl.
-  exists b, ll. split; [reflexivity|]. split; [apply Hr|]. rewrite (lrel_warn _ _ Hr). reflexivity.
+  pose proof (ploop_warn_lax lim (S (tsize ts)) [] {| toks := ts; depth := 0 |} log0 log0 lrel0) as H.
+  destruct (ploop_top_ok Warn lim ts ltac:(discriminate)) as [(b & st & lw & Hw)|(e & st & lw & Hw & He)];
+    remember (S (tsize ts)) as f eqn:Ef; clear Ef; rewrite Hw in H; unfold G in H; destruct H as (ll & Hl & Hr); rewrite Hw, Hl.
+  - left. exists b, ll. split; [reflexivity|]. split; [apply Hr|]. rewrite (lrel_warn _ _ Hr). reflexivity.
+  - right. exists e. auto.
 Qed.
 
-Theorem lax_parse_total lim ts : exists b l, parse Lax lim ts = Ok (b, l) /\ emitted l = [].
-Proof. destruct (warn_parse_is_lax_parse lim ts) as (b & l & H1 & H2 & _). eauto. Qed.
+Theorem lax_parse_total lim ts :
+  (exists b l, parse Lax lim ts = Ok (b, l) /\ emitted l = []) \/ (exists e, parse Lax lim ts = Err e /\ is_liquid e = false).
+Proof.
+  destruct (warn_parse_is_lax_parse lim ts) as [(b & l & H1 & H2 & _)|(e & H1 & _ & H3)]; [left|right]; eauto.
+Qed.
 
 Theorem strict_parse_invariant lim ts b l :
   parse Strict lim ts = Ok (b, l) -> l = log0 /\ forall m, parse m lim ts = Ok (b, log0).
 Proof.
-  unfold parse, parse_fuel. remember (S (List.length ts)) as f eqn:Ef. clear Ef. intros H.
+  unfold parse, parse_fuel. remember (S (tsize ts)) as f eqn:Ef. clear Ef. intros H.
   destruct (ploop Strict lim f [] {| toks := ts; depth := 0 |} log0) as [b' st l'|e st l'|] eqn:E; try discriminate.
   inversion H; subst b' l'; clear H.
   assert (Hall : forall m, exists l2, ploop m lim f [] {| toks := ts; depth := 0 |} log0 = POk b st l2 /\ lfix log0 log0 l l2).
@@ -484,33 +663,37 @@ Proof.
 Qed.
 
 (* ------------------------------------------------------------------------------------------------ rendering *)
-Lemma render_top_warn_lax : forall b cap out lw ll, lrel lw ll ->
-  match render_top Warn b cap out lw, render_top Lax b cap out ll with
+Local Opaque call_at.
+
+Lemma render_top_warn_lax ib : forall b s out lw ll, lrel lw ll ->
+  match render_top ib Warn b s out lw, render_top ib Lax b s out ll with
   | Ok (t, l1), Ok (t', l2) => t = t' /\ lrel l1 l2
   | Err e, Err e' => e = e' /\ is_liquid e = false
   | _, _ => False
   end.
 Proof.
-  induction b as [|n b IH]; intros cap out lw ll Hl; simpl; [auto|].
-  destruct (rnode n cap) as [[t c] o].
+  induction b as [|n b IH]; intros s out lw ll Hl; simpl; [auto|].
+  destruct (rnode (call_at ib call_depth) ib false n s) as [[t c] o].
   assert (Hstep : forall e, lrel {| emitted := emitted lw ++ [e]; suppressed := suppressed lw ++ [e] |}
                                  {| emitted := emitted ll; suppressed := suppressed ll ++ [e] |}).
   { intros e. destruct Hl as (H1 & H2 & H3). unfold lrel; simpl. rewrite H1, H2, H3, H1. auto. }
-  destruct o as [|e|i]; simpl.
+  destruct o as [|e|i|]; simpl.
   - apply IH; auto.
   - destruct (is_liquid e) eqn:El; simpl; [apply IH; auto|auto].
   - apply IH; auto.
+  - auto.
 Qed.
 
-Lemma render_top_strict : forall b cap out l0 t l,
-  render_top Strict b cap out l0 = Ok (t, l) -> l = l0 /\ forall m l0', render_top m b cap out l0' = Ok (t, l0').
+Lemma render_top_strict ib : forall b s out l0 t l,
+  render_top ib Strict b s out l0 = Ok (t, l) -> l = l0 /\ forall m l0', render_top ib m b s out l0' = Ok (t, l0').
 Proof.
-  induction b as [|n b IH]; intros cap out l0 t l; simpl.
+  induction b as [|n b IH]; intros s out l0 t l; simpl.
   - intros H; inversion H; subst. split; auto.
-  - destruct (rnode n cap) as [[t1 c] o]. destruct o as [|e|i]; simpl.
+  - destruct (rnode (call_at ib call_depth) ib false n s) as [[t1 c] o]. destruct o as [|e|i|]; simpl.
     + intros H. destruct (IH _ _ _ _ _ H) as (-> & Hm). split; auto.
     + destruct (is_liquid e); discriminate.
     + discriminate.
+    + intros H; inversion H; subst. split; auto.
 Qed.
 
 Theorem warn_render_is_lax_render b :
@@ -518,8 +701,8 @@ Theorem warn_render_is_lax_render b :
                render Warn b = Ok (t, {| emitted := suppressed l; suppressed := suppressed l |})) \/
   (exists e, render Lax b = Err e /\ render Warn b = Err e /\ is_liquid e = false).
 Proof.
-  unfold render. pose proof (render_top_warn_lax b [] [] log0 log0 lrel0) as H.
-  destruct (render_top Warn b [] [] log0) as [[t l1]|e|]; destruct (render_top Lax b [] [] log0) as [[t' l2]|e'|]; try contradiction.
+  unfold render. pose proof (render_top_warn_lax (inheritance_bad b) b rst0 [] log0 log0 lrel0) as H.
+  destruct (render_top (inheritance_bad b) Warn b rst0 [] log0) as [[t l1]|e|]; destruct (render_top (inheritance_bad b) Lax b rst0 [] log0) as [[t' l2]|e'|]; try contradiction.
   - left. destruct H as (-> & Hr). exists t', l2. split; [reflexivity|]. split; [apply Hr|]. rewrite (lrel_warn _ _ Hr). reflexivity.
   - right. destruct H as (-> & Hl). eauto.
 Qed.
@@ -531,7 +714,7 @@ Proof.
 Qed.
 
 Theorem strict_render_invariant b t l : render Strict b = Ok (t, l) -> l = log0 /\ forall m, render m b = Ok (t, log0).
-Proof. unfold render. intros H. destruct (render_top_strict _ _ _ _ _ _ H) as (-> & Hm). split; auto. Qed.
+Proof. unfold render. intros H. destruct (render_top_strict _ _ _ _ _ _ _ H) as (-> & Hm). split; auto. Qed.
 
 (* ------------------------------------------------------------------------------------------------ the whole run *)
 Definition mk_case (m : mode) (lim : nat) (ts : list tok) : rcase := {| rc_mode := m; rc_limit := lim; rc_toks := ts |}.
@@ -550,28 +733,48 @@ Qed.
 Theorem run_lax_never_raises_liquid lim ts :
   match run_recover (mk_case Lax lim ts) with
   | OOut _ n => n = 0
-  | ORenderErr e => is_liquid e = false
-  | _ => False
+  | OParseErr e | ORenderErr e => is_liquid e = false
+  | OFuel => False
   end.
 Proof.
   unfold run_recover, mk_case; simpl.
-  destruct (lax_parse_total lim ts) as (b & l & -> & Hl).
+  destruct (lax_parse_total lim ts) as [(b & l & -> & Hl)|(e & -> & He)]; [|exact He].
   destruct (lax_render_total b) as [(t & l2 & -> & Hl2)|(e & -> & He)]; [rewrite Hl, Hl2; reflexivity|exact He].
 Qed.
 
 (* warn mode: same text as lax mode, and as many warnings as lax mode suppressed errors *)
 Theorem run_warn_is_lax lim ts :
-  exists b l1, parse Lax lim ts = Ok (b, l1) /\
-    match render Lax b with
-    | Ok (t, l2) => run_recover (mk_case Lax lim ts) = OOut t 0 /\
-                    run_recover (mk_case Warn lim ts) = OOut t (List.length (suppressed l1) + List.length (suppressed l2))
-    | Err e => run_recover (mk_case Lax lim ts) = ORenderErr e /\ run_recover (mk_case Warn lim ts) = ORenderErr e /\ is_liquid e = false
-    | OutOfFuel => False
-    end.
+  match parse Lax lim ts with
+  | Ok (b, l1) =>
+      match render Lax b with
+      | Ok (t, l2) => run_recover (mk_case Lax lim ts) = OOut t 0 /\
+                      run_recover (mk_case Warn lim ts) = OOut t (List.length (suppressed l1) + List.length (suppressed l2))
+      | Err e => run_recover (mk_case Lax lim ts) = ORenderErr e /\ run_recover (mk_case Warn lim ts) = ORenderErr e /\ is_liquid e = false
+      | OutOfFuel => False
+      end
+  | Err e => run_recover (mk_case Lax lim ts) = OParseErr e /\ run_recover (mk_case Warn lim ts) = OParseErr e /\ is_liquid e = false
+  | OutOfFuel => False
+  end.
 Proof.
-  destruct (warn_parse_is_lax_parse lim ts) as (b & l1 & Hp & He & Hw). exists b, l1. split; [exact Hp|].
-  unfold run_recover, mk_case; simpl. rewrite Hp, Hw.
+  unfold run_recover, mk_case; simpl.
+  destruct (warn_parse_is_lax_parse lim ts) as [(b & l1 & Hp & He & Hw)|(e & Hp & Hw & He)]; rewrite Hp, Hw; [|auto].
   destruct (warn_render_is_lax_render b) as [(t & l2 & -> & He2 & ->)|(e & -> & -> & Hl)]; simpl.
   - rewrite He, He2. auto.
   - auto.
 Qed.
+
+(* ------------------------------------------------------------------------------------------------ the two repaired defects, as they were *)
+(* a when list whose second alternative is rejected only in strict mode: before the repair strict mode parsed, silently, to a
+   shorter list -- here one that does not match -- while lax mode kept the matching alternative *)
+Theorem when_list_old_refuted :
+  let rs := RVal [] 0 in let rl := RVal [] 1 in
+  let ts := fun m => [TTag Ncase; TExpr (XOk (RVal [] 1)); TTag Nwhen; TExpr (XOk (when_value_old m rs rl)); TContent [104%N]; TTag Nendcase] in
+  run_recover (mk_case Strict 30 (ts Strict)) = OOut [] 0 /\ run_recover (mk_case Lax 30 (ts Lax)) = OOut [104%N] 0.
+Proof. vm_compute. split; reflexivity. Qed.
+
+(* an expression nested so deeply that parsing it overflows the stack: Tag.get_node did not catch the RecursionError, which left
+   from_string in every mode; reported as ContextDepthError it is handled like any other error of that node *)
+Theorem deep_nesting_old_refuted :
+  parse Lax 30 [TOutput; TExpr (XBad ERecursionError)] = Err ERecursionError /\
+  parse Lax 30 [TOutput; TExpr (XBad EContextDepth)] = Ok (BCons NIllegal BNil, {| emitted := []; suppressed := [EContextDepth] |}).
+Proof. vm_compute. split; reflexivity. Qed.
